@@ -67,7 +67,7 @@ var NumberSpellings = []Number{
 	Num("0.123456789012", "123456789012/1000000000000"),
 	Num("5", "5"),
 	Num("0", "0"),
-	Num("1234567.125", "1234567125/1000"),
+	Num("1234567.25", "123456725/100"),
 }
 
 type symSpec struct {
